@@ -64,6 +64,24 @@ def increasePenalty (pit pif : α) (penalty threshold : α) : α :=
 /-- outcome of `decrease_penalty` for the value `_get_low_penalty()` returned -/
 def decreasePenalty (penalty low : α) : α := min2 penalty low
 
+/-- `abs(a)` -/
+def absP (a : α) : α := if lt a (Arith.ofNat 0) then sub (Arith.ofNat 0) a else a
+
+/-- `increase_penalty`: the threshold value.  `lmNorm` is the norm of the multiplier estimates, `sqpVal` the value of
+the SQP objective at the step, `violDiff = max(‖violation at 0‖ − ‖linearised violation at the step‖, 0)`; the quotient
+is used only when `|violDiff| > TINY·|sqpVal|` -/
+def penaltyThreshold (tiny lmNorm sqpVal violDiff : α) : α :=
+  if gt (absP violDiff) (mul tiny (absP sqpVal)) then max2 lmNorm (div sqpVal violDiff) else lmNorm
+
+/-- `_get_low_penalty`, last step for the selected constraints: `(f_max − f_min) / c_diff` when
+`c_diff > TINY·(f_max − f_min)`, `+inf` (`none`) otherwise -/
+def lowPenalty (tiny fmin fmax cdiff : α) : Option α :=
+  if gt cdiff (mul tiny (sub fmax fmin)) then some (div (sub fmax fmin) cdiff) else none
+
+/-- `decrease_penalty` with the value of `_get_low_penalty` (`none` = `+inf`: `min(penalty, inf)`) -/
+def decreasePenaltyO (penalty : α) (low : Option α) : α :=
+  match low with | some l => min2 penalty l | none => penalty
+
 /-- state of the scan of `set_best_index`: current best index, its merit value and violation, the rounding tolerance
 in force (that of the current best merit), the number of switches made because of the tolerance and the sum of the
 tolerances they used -/
